@@ -227,8 +227,11 @@ def make_fragment(gen, r, rid, case_id, method, cell, contig, site, reverse, umi
                 r1_start = r1_pos = ns
     r2_cigar = f'{r2_len}M'
     if r2_indel is not None and r2_len >= 24:
-        kind_, k_ = r2_indel
+        kind_, k_ = r2_indel[:2]
         j_ = r.randint(8, r2_len - k_ - 8)
+        if len(r2_indel) > 2 and kind_ == 'D':
+            # the deletion sits next to the first or the last aligned base of the read: an aligned block of exactly one reference position
+            j_ = 1 if r2_indel[2] == 'first' else r2_len - 1
         if kind_ == 'I':
             # k inserted bases after j aligned bases; the read still has r2_len bases, it covers r2_len-k reference bases from r2_start
             ins = rand_dna(r, k_)
